@@ -1,5 +1,5 @@
 """C04 - overflowcheck reports exactly the overflowing C arithmetic (DESIGN 7/C04)."""
-import json, os, re, subprocess
+import json, os, re, subprocess, time
 import cybuild
 
 TITLE = "overflowcheck reports exactly the overflowing C arithmetic"
@@ -7,7 +7,13 @@ EXTRACTS = ["Overflow"]
 RULE = ("operand tuples per (C type, operator or expression tree, variable/constant operand, fold on/off, "
         "preprocessor branch of Overflow.c); exhaustive for 8-bit types (run inside the module), boundary "
         "lattice + PRNG values for 16/32/64-bit types; distinct by (module, function, operands); non-trivial "
-        "= operands reach the helper (every case does; strata separate fits / overflows / spurious)")
+        "= operands reach the helper (every case does; strata separate fits / overflows / spurious); "
+        "typedef'd types: every spelling that reaches the helpers other than by a literal base name (ctypedef "
+        "aliases of each width/signedness, chained aliases, libc.stdint, extern ctypedefs whose real width is "
+        "8/16/32/64 under a declared int/unsigned int/long, signed long, Py_hash_t, ptrdiff_t, char, bint, enum) "
+        "x (+ - * << unary-, T-typed constant operand, in-place, folded a*b+c) x corner pairs of the type's "
+        "limits {min,min+1,-1,0,1,2,max-1,max}^2 + lattice samples; the instantiated Binop if-chain of every "
+        "such type is read from the generated C and interpreted at every width/signedness")
 EXPLANATION = ("theorems (all widths >= 8, all in-range operands, every __builtin_constant_p outcome): each "
                "portable helper of Overflow.c (unsigned/signed add, sub, mul, mul_const, widening paths) "
                "returns the wrapped exact result and sets the bit iff the exact result does not fit, equals "
@@ -15,9 +21,15 @@ EXPLANATION = ("theorems (all widths >= 8, all in-range operands, every __builti
                "complete with its spurious set characterised exactly; abs and // (C03 model) are exact; the "
                "folded check of ConsolidateOverflowCheck raises iff the unfolded one does. Correspondence: "
                "extracted model vs compiled modules (gcc builtin branch; clang -D__ibmxl__ portable branch in "
-               "thorough) vs Python big-int oracle. partial: unary minus is unchecked in the code (refuted, "
-               "known finding); the Binop sizeof(T)<sizeof(int) arm is unchecked but the compiler never "
-               "instantiates it (tested on the generated C, not proved); the fold theorem is about the tree "
+               "thorough) vs Python big-int oracle. Typedef'd result types: the sizeof dispatch of Binop picks the "
+               "base helper of exactly the type's width and signedness and is exact for every sane width >= int; "
+               "any guard that lets a width take the unchecked shortcut is refuted by a witness for every "
+               "operator and signedness (so 'sizeof(T) <= sizeof(int)' fails at int-sized typedefs); LeftShift at "
+               "a typedef of any width is sound and complete; the generated if-chain is interpreted and compared "
+               "with the model's choice. partial: the sizeof(T)<sizeof(int) arm of Binop is unchecked in the code "
+               "and IS reached by an extern typedef really narrower than int (refuted, known finding; the repaired "
+               "arm is proved exact for all widths); nested expressions over such a type are compared with the "
+               "oracle only; the fold theorem is about the tree "
                "model of the transform; mixed signed/unsigned operands are outside the property's quantifier.")
 TRUSTED = ["model of C arithmetic: explicit two's-complement wrap per operation at the width of its C type (Lib/CInt.v)",
            "contract of __builtin_{add,sub,mul}_overflow as documented by gcc/clang (builtin_res)",
@@ -29,6 +41,9 @@ ASSUMPTIONS = ["LP64: char 8, short 16, int 32, long/long long 64 bits (theorems
 
 # set to True once the proposed fix C04-unary_neg_unchecked is applied to the tree
 NEG_CHECKED = os.environ.get("C04_NEG_CHECKED", "1") == "1"   # (env override: trying the fix in a worktree)
+
+# set to "1" once proposed_fixes/C04-extern_typedef_narrower_than_int_unchecked.diff is applied to the tree
+NARROW_FIXED = os.environ.get("C04_NARROW_FIXED", "0") == "1"
 
 # (ctype, name, width, signed)
 TYPES = [("signed char", "schar", 8, True), ("short", "short", 16, True), ("int", "int", 32, True),
@@ -372,6 +387,638 @@ def check_types(ctx, modname, funcs, used):
             ctx.corr_break("result type", {"module": modname, "func": f["name"]}, "no helper call", "checked helper")
 
 
+# ---------------------------------------------------------------------------------------------
+# typedef'd / non-literal C integer types: every way a C integer type reaches the helpers other than
+# by its literal name.  route "T": the result type of T op T is T itself, so Binop / LeftShift are
+# instantiated at the typedef name and the sizeof if-chain picks the callee at C compile time;
+# route "int": the declared rank is below int, the operation is promoted to plain int.
+TD_PREAMBLE = '''from libc.stdint cimport int8_t, int16_t, int32_t, int64_t, uint8_t, uint16_t, uint32_t, uint64_t
+cdef extern from *:
+    """
+    typedef signed char c04x_i8; typedef short c04x_i16; typedef int c04x_i32; typedef long long c04x_i64;
+    typedef unsigned char c04x_u8; typedef unsigned short c04x_u16; typedef unsigned int c04x_u32;
+    typedef unsigned long long c04x_u64;
+    typedef int c04x_l32; typedef long c04x_il64; typedef unsigned int c04x_ul32;
+    """
+    ctypedef int c04x_i8
+    ctypedef int c04x_i16
+    ctypedef int c04x_i32
+    ctypedef int c04x_i64
+    ctypedef unsigned int c04x_u8
+    ctypedef unsigned int c04x_u16
+    ctypedef unsigned int c04x_u32
+    ctypedef unsigned int c04x_u64
+    ctypedef long c04x_l32
+    ctypedef int c04x_il64
+    ctypedef unsigned long c04x_ul32
+ctypedef int c04_myint
+ctypedef unsigned int c04_myuint
+ctypedef long c04_mylong
+ctypedef unsigned long c04_myulong
+ctypedef long long c04_myll
+ctypedef unsigned long long c04_myull
+ctypedef short c04_myshort
+ctypedef unsigned short c04_myushort
+ctypedef signed char c04_mychar
+ctypedef unsigned char c04_myuchar
+ctypedef c04_myint c04_myint2
+ctypedef Py_ssize_t c04_myssize
+cdef enum C04E:
+    C04E_NEG = -1
+    C04E_ZERO = 0
+    C04E_BIG = 2147483647
+'''
+# (name, pyx spelling, real width, real signedness, route, in the quick tier?)
+TD_TYPES = [
+    # module-level ctypedef aliases of every width and signedness (exact C typedefs)
+    ("myint", "c04_myint", 32, True, "T", True), ("myuint", "c04_myuint", 32, False, "T", True),
+    ("mylong", "c04_mylong", 64, True, "T", False), ("myulong", "c04_myulong", 64, False, "T", False),
+    ("myll", "c04_myll", 64, True, "T", True), ("myull", "c04_myull", 64, False, "T", True),
+    ("myshort", "c04_myshort", 16, True, "int", True), ("myushort", "c04_myushort", 16, False, "int", False),
+    ("mychar", "c04_mychar", 8, True, "int", False), ("myuchar", "c04_myuchar", 8, False, "int", False),
+    ("myint2", "c04_myint2", 32, True, "T", True), ("myssize", "c04_myssize", 64, True, "T", False),
+    # libc.stdint
+    ("int8", "int8_t", 8, True, "int", False), ("int16", "int16_t", 16, True, "int", False),
+    ("int32", "int32_t", 32, True, "T", True), ("int64", "int64_t", 64, True, "T", True),
+    ("uint8", "uint8_t", 8, False, "int", False), ("uint16", "uint16_t", 16, False, "int", True),
+    ("uint32", "uint32_t", 32, False, "T", True), ("uint64", "uint64_t", 64, False, "T", True),
+    # extern typedefs whose declared size is inexact (documented as allowed: "you don't need to match
+    # the type exactly"): declared int / unsigned int / long, real type see TD_PREAMBLE
+    ("xi8", "c04x_i8", 8, True, "T", True), ("xi16", "c04x_i16", 16, True, "T", True),
+    ("xi32", "c04x_i32", 32, True, "T", True), ("xi64", "c04x_i64", 64, True, "T", True),
+    ("xu8", "c04x_u8", 8, False, "T", False), ("xu16", "c04x_u16", 16, False, "T", True),
+    ("xu32", "c04x_u32", 32, False, "T", True), ("xu64", "c04x_u64", 64, False, "T", True),
+    ("xl32", "c04x_l32", 32, True, "T", True), ("xil64", "c04x_il64", 64, True, "T", False),
+    ("xul32", "c04x_ul32", 32, False, "T", False),
+    # other spellings that are not the literal base-case names
+    ("hash", "Py_hash_t", 64, True, "T", False), ("ptrdiff", "ptrdiff_t", 64, True, "T", False),
+    ("slong", "signed long", 64, True, "T", True), ("sint", "signed int", 32, True, "int", False),
+    ("char", "char", 8, True, "int", True), ("bint", "bint", 8, False, "int", True),
+    ("enum", "C04E", 32, True, "int", True),
+]
+TD_BY_NAME = {t[0]: t for t in TD_TYPES}
+TD_TREES = ["+ * v0 v1 v2", "- * v0 v1 * v2 v0", "+ << v0 v1 v2"]
+NARROW_CLASS = "extern_typedef_narrower_than_int_unchecked"
+
+
+def td_res(td):
+    nm, decl, w, sg, route, q = td
+    return (w, sg) if route == "T" else (32, True)
+
+
+def td_functions(quick, part, nparts):
+    """the types are dealt to nparts modules (parallel builds).  One compiled function per type with one
+    branch per operation (selected by f['k']): much less generated C than one function per operation"""
+    F = []
+    types = [t for t in TD_TYPES if (t[5] or not quick)]
+    for i, td in enumerate(types):
+        if i % nparts != part:
+            continue
+        nm, decl, w, sg, route, q = td
+        G = []
+        for op, sym in OPS:
+            G.append(dict(kind="var", op=op, nargs=2, expr="a %s b" % sym))
+        G.append(dict(kind="neg", nargs=1, expr="-a"))
+        if nm not in ("enum", "bint"):
+            G.append(dict(kind="mulc", op="mul", const=3, nargs=1, expr="a * (<%s>3)" % decl))
+        for j, tr in enumerate(TD_TREES[:1] if quick else TD_TREES):
+            G.append(dict(kind="tree", tree=tr, nargs=3, expr=tree_src(tr.split())))
+        if route == "T":
+            for op, sym in (OPS[:1] if quick else OPS):
+                G.append(dict(kind="iop", op=op, nargs=2, stmt="a %s= b" % sym))
+        for k, g in enumerate(G):
+            F.append(dict(g, name="f_td_%s" % nm, td=nm, k=k))
+    return F
+
+
+def td_source(funcs, fold):
+    L = ["# cython: language_level=3, overflowcheck=True, overflowcheck.fold=%s" % ("True" if fold else "False"),
+         TD_PREAMBLE]
+    tds = []
+    for f in funcs:
+        if f["td"] not in tds:
+            tds.append(f["td"])
+    for nm in tds:
+        decl = TD_BY_NAME[nm][1]
+        L += ["def f_td_%s(int k, cases):" % nm, "    cdef %s a, b, c" % decl, "    out = []",
+              "    for t in cases:", "        a = t[0]; b = t[1]; c = t[2]", "        try:"]
+        for f in funcs:
+            if f["td"] != nm:
+                continue
+            L += ["            %s k == %d:" % ("if" if f["k"] == 0 else "elif", f["k"])]
+            if "stmt" in f:
+                L += ["                " + f["stmt"], "                out.append(a)"]
+            else:
+                L += ["                out.append(%s)" % f["expr"]]
+        L += ["        except OverflowError:", "            out.append('O')",
+              "    return ','.join([('O' if x == 'O' else str(int(x))) for x in out])", ""]
+    # what the C compiler says about every type (the tie of the dispatch model is made at these values)
+    tds = [nm for nm in sorted(tds) if nm not in ("bint", "enum")]
+    L += ["def td_sizes():", "    out = []"]
+    for nm in tds:
+        L += ["    cdef %s v_%s = <%s>(-1)" % (TD_BY_NAME[nm][1], nm, TD_BY_NAME[nm][1])]
+    for nm in tds:
+        L += ["    out.append('%s %%d %%d' %% (sizeof(%s), 1 if v_%s < 0 else 0))" % (nm, TD_BY_NAME[nm][1], nm)]
+    L += ["    return ','.join(out)", ""]
+    return "\n".join(L)
+
+
+def td_plan(quick):
+    if quick:
+        return [("c04_td1", td_functions(True, 0, 1), True)]
+    return ([("c04_td%d" % (p + 1), td_functions(False, p, 2), True) for p in (0, 1)] +
+            [("c04_tdn%d" % (p + 1), td_functions(False, p, 2), False) for p in (0, 1)])
+
+
+def td_expected(f, args):
+    rw, rs = td_res(TD_BY_NAME[f["td"]])
+    lo, hi = rng_of(rw, rs)
+    k = f["kind"]
+    if k in ("var", "iop", "mulc"):
+        x, y = (args[0], args[1]) if k != "mulc" else (args[0], f["const"])
+        op = f["op"]
+        if op == "lshift":
+            if y < 0:
+                return ("raise",)
+            if y > 200:
+                return ("raise",) if x != 0 else ("val", 0)
+            v = x << y
+        else:
+            v = x + y if op == "add" else x - y if op == "sub" else x * y
+        return ("val", v) if lo <= v <= hi else ("raise",)
+    if k == "neg":
+        return ("val", -args[0]) if lo <= -args[0] <= hi else ("raise",)
+    if k == "tree":
+        v, must = tree_exact(f["tree"].split(), args, lo, hi)
+        return ("raise",) if must else ("val", v)
+    raise ValueError(k)
+
+
+def td_model_query(f, args, builtin, fold):
+    nm, decl, w, sg, route, q = TD_BY_NAME[f["td"]]
+    B = 1 if builtin else 0
+    k = f["kind"]
+    if k in ("var", "iop", "mulc"):
+        x, y = (args[0], args[1]) if k != "mulc" else (args[0], f["const"])
+        if route == "int":
+            return "opall %d %s 32 1 64 64 %d %d" % (B, f["op"], x, y)
+        return "td %d lt %d %s 32 64 64 %d %d %d %d" % (1 if NARROW_FIXED else 0, B, f["op"], w, sg, x, y)
+    rw, rs = td_res(TD_BY_NAME[f["td"]])
+    if k == "neg":
+        return "neg %d %d %d %d" % (1 if NEG_CHECKED else 0, rw, rs, args[0])
+    if k == "tree":
+        if route == "T" and w < 32:
+            return "skip"      # nested expression over a type of the finding class: oracle only
+        return "tree %d %d 64 64 %d %d %s %s" % (B, rw, rs, 1 if fold else 0, ",".join(str(x) for x in args), f["tree"])
+    raise ValueError(k)
+
+
+def td_classify(f, args):
+    nm, decl, w, sg, route, q = TD_BY_NAME[f["td"]]
+    if route == "T" and w < 32 and decl.startswith("c04x_") and (
+            (f["kind"] in ("var", "iop", "mulc") and f["op"] != "lshift") or f["kind"] == "tree"):
+        return NARROW_CLASS
+    return "wrong_result_typedef_%s" % f["kind"]
+
+
+def td_values(td, rng, nrand):
+    nm, decl, w, sg, route, q = td
+    if nm == "bint":
+        return [0, 1]
+    return lattice(w, sg, rng, nrand)
+
+
+def td_cases(f, vals, w, sg, quick, rng):
+    if f["nargs"] == 1:
+        return [(a,) for a in vals]
+    lo, hi = (vals[0], vals[-1])
+    edge = [v for v in sorted({lo, hi, 0, 1, 2, -1, lo + 1, hi - 1}) if v in vals]
+    if f["nargs"] == 2:
+        cases = [(a, b) for a in vals for b in vals]
+        budget = 120 if quick else 600
+        if len(cases) > 3 * budget:
+            corner = [(a, b) for a in edge for b in edge]
+            cs = set(corner)
+            side = [c for c in cases if (c[0] in edge or c[1] in edge) and c not in cs]
+            rest = [c for c in cases if not (c[0] in edge or c[1] in edge)]
+            cases = corner + rng.sample(side, min(len(side), budget)) + rng.sample(rest, min(len(rest), budget))
+        return cases
+    small = [v for v in vals if abs(v) <= 70]
+    cases = [(hi, 1, hi), (hi, 2, lo), (lo, 1, lo), (hi // 2 + 1, 2, 0), (hi // 2, 2, 1), (hi // 2, 2, 2),
+             (hi, 1, 1), (lo, 1, 0), (hi // 3 + 1, 3, 0)]
+    for _ in range(50 if quick else 500):
+        pool = [vals, vals, small] if rng.random() < 0.6 else [vals, small, vals]
+        cases.append(tuple(rng.choice(pool[i]) for i in range(3)))
+    return [c for c in cases if all(lo <= v <= hi for v in c)]
+
+
+# ---- reading the instantiated Binop if-chain from the generated C -------------------------------
+def _match(txt, i, o, c):
+    d = 0
+    for j in range(i, len(txt)):
+        if txt[j] == o:
+            d += 1
+        elif txt[j] == c:
+            d -= 1
+            if d == 0:
+                return j
+    raise ValueError("unbalanced")
+
+
+def parse_chain(txt):
+    txt = txt.strip()
+    if re.match(r"if\s*\(", txt):
+        i = txt.index("(")
+        j = _match(txt, i, "(", ")")
+        k = txt.index("{", j)
+        if txt[j + 1:k].strip():
+            raise ValueError("unbraced if")
+        l = _match(txt, k, "{", "}")
+        then = parse_chain(txt[k + 1:l])
+        rest = txt[l + 1:].strip()
+        els = None
+        if rest.startswith("else"):
+            rest = rest[4:].strip()
+            if re.match(r"if\s*\(", rest):
+                els = parse_chain(rest)
+            else:
+                if not rest.startswith("{"):
+                    raise ValueError("unbraced else")
+                l2 = _match(rest, 0, "{", "}")
+                if rest[l2 + 1:].strip():
+                    raise ValueError("code after else block")
+                els = parse_chain(rest[1:l2])
+        elif rest:
+            raise ValueError("code after if block")
+        return ("if", txt[i + 1:j], then, els)
+    return ("leaf", txt)
+
+
+C_SIZEOF = {"int": 4, "unsigned int": 4, "long": 8, "unsigned long": 8, "PY_LONG_LONG": 8,
+            "unsigned PY_LONG_LONG": 8, "short": 2, "char": 1}
+BASE_OF = {"int": (32, 1), "long": (64, 1), "long_long": (64, 1),
+           "unsigned_int": (32, 0), "unsigned_long": (64, 0), "unsigned_long_long": (64, 0)}
+
+
+def eval_chain(node, T, binop, nbytes, unsigned):
+    """interpret the parsed if-chain for a type of nbytes bytes -> 'narrow' | 'narrowfx' | 'base W S' | 'fatal'"""
+    while node[0] == "if":
+        cond = node[1].strip()
+        while cond.startswith("(") and _match(cond, 0, "(", ")") == len(cond) - 1:
+            cond = cond[1:-1].strip()
+        m = re.fullmatch(r"sizeof\((.+?)\)\s*(<=|>=|==|!=|<|>)\s*sizeof\((.+?)\)", cond)
+        if m:
+            sz = dict(C_SIZEOF)
+            sz[T] = nbytes
+            x, y = sz[m.group(1)], sz[m.group(3)]
+            v = {"<": x < y, "<=": x <= y, "==": x == y, "!=": x != y, ">": x > y, ">=": x >= y}[m.group(2)]
+        elif cond == "__PYX_IS_UNSIGNED(%s)" % T:
+            v = unsigned
+        else:
+            raise ValueError("condition not understood: " + cond)
+        node = node[2] if v else node[3]
+        if node is None:
+            raise ValueError("no else branch")
+    leaf = node[1]
+    if leaf == "return __Pyx_%s_no_overflow(a, b, overflow);" % binop:
+        return "narrow"
+    leaf1 = re.sub(r"(//[^\n]*\n|/\*.*?\*/)", "", leaf, flags=re.S).strip()
+    if re.fullmatch(r"int r = __Pyx_%s_int_checking_overflow\(a, b, overflow\);\s*"
+                    r"if \(unlikely\(\(%s\) r != r\)\) \*overflow \|= 1;\s*return \(%s\) r;"
+                    % (binop, re.escape(T), re.escape(T)), leaf1):
+        return "narrowfx"
+    m = re.fullmatch(r"return \(%s\) __Pyx_%s_(\w+)_checking_overflow\(a, b, overflow\);" % (re.escape(T), binop), leaf)
+    if m and m.group(1) in BASE_OF:
+        return "base %d %d" % BASE_OF[m.group(1)]
+    if leaf.startswith("Py_FatalError("):
+        return "fatal"
+    raise ValueError("statement not understood: " + leaf[:120])
+
+
+def binop_instances(c_text):
+    """{(binop, NAME): (TYPE, parsed chain)} for every instantiated Binop definition"""
+    out = {}
+    for m in re.finditer(r"^static CYTHON_INLINE ([\w ]+?) __Pyx_((?:add|sub|mul)(?:_const)?)_(\w+)_checking_overflow"
+                         r"\(\1 a, \1 b, int \*overflow\) \{\n(    if \(\(sizeof.*?)\n\}\n", c_text, re.M | re.S):
+        T, binop, name, body = m.group(1), m.group(2), m.group(3), m.group(4)
+        try:
+            out[(binop, name)] = (T, parse_chain(body))
+        except ValueError as e:
+            out[(binop, name)] = (T, ("error", str(e)))
+    return out
+
+
+def td_check_code(ctx, model, mn, funcs, c_file, sizes):
+    """tie of the dispatch model to the generated C: (1) every function calls the helper of its result
+    type; (2) the if-chain of each instantiated Binop, interpreted at the sizeof / signedness the C
+    compiler reports for the type AND at every width 8..64 / signedness, selects the callee the model
+    selects"""
+    txt = open(c_file).read()
+    used = inspect_c(c_file, funcs)
+    inst = binop_instances(txt)
+    seen = set()
+    queries, qmeta = [], []
+    done = set()
+    for f in funcs:
+        if f["td"] in done:
+            continue
+        done.add(f["td"])
+        nm, decl, w, sg, route, q = TD_BY_NAME[f["td"]]
+        u = used.get(f["name"])
+        inp = {"module": mn, "func": f["name"], "type": decl}
+        if u is None:
+            ctx.corr_break("inspect_c", inp, "function body not found", "found")
+            continue
+        ops_seen = {(op, isconst) for (op, isconst, cname, suffix) in u}
+        want_ops = {("add", False), ("sub", False), ("mul", False), ("lshift", False)}
+        if nm not in ("enum", "bint"):
+            want_ops.add(("mul", True))
+        if not want_ops <= ops_seen:
+            ctx.corr_break("typedef helper", inp, sorted(ops_seen), "checked helper for each of %s" % sorted(want_ops))
+            continue
+        if nm not in ("bint", "enum") and sizes.get(nm) != (w // 8, 1 if sg else 0):
+            ctx.corr_break("typedef size", inp, sizes.get(nm), (w // 8, 1 if sg else 0))
+        for (op, isconst, cname, suffix) in u:
+            if suffix == "no_overflow" or op == "div":
+                ctx.corr_break("dead-helper assumption", inp, "__Pyx_%s_%s_%s is called" % (op, cname, suffix), "never called")
+                continue
+            if cname in CNAME and not cname.endswith(decl.replace(" ", "_")):
+                if CNAME[cname] != td_res(TD_BY_NAME[f["td"]]):
+                    ctx.corr_break("typedef result type", inp, cname, td_res(TD_BY_NAME[f["td"]]))
+                if cname in ("int", "long", "unsigned_int", "unsigned_long"):
+                    continue                     # base case helper called directly
+            elif route != "T" or not cname.endswith(decl.replace(" ", "_")):
+                ctx.corr_break("typedef result type", inp, cname, "helper of %s" % decl)
+                continue
+            if op == "lshift":
+                continue
+            binop = op + ("_const" if isconst else "")
+            if (binop, cname) in seen:
+                continue
+            seen.add((binop, cname))
+            hname = "__Pyx_%s_%s_checking_overflow" % (binop, cname)
+            if (binop, cname) not in inst:
+                ctx.corr_break("Binop instance", dict(inp, helper=hname), "definition not found", "found")
+                continue
+            T, chain = inst[(binop, cname)]
+            if chain[0] == "error":
+                ctx.corr_break("Binop instance", dict(inp, helper=hname), chain[1], "if-chain on sizeof")
+                continue
+            pts = [(w, sg, "real")] + [(ww, ss, "sweep") for ww in (8, 16, 32, 64) for ss in (True, False)]
+            for (ww, ss, why) in pts:
+                try:
+                    got = eval_chain(chain, T, binop, ww // 8, not ss)
+                except (ValueError, KeyError) as e:
+                    got = "unreadable: %s" % e
+                queries.append("choice lt 32 64 64 %d %d" % (ww, 1 if ss else 0))
+                qmeta.append((dict(inp, helper=hname, width=ww, signed=ss, at=why), got))
+    res = model.batch(queries) if queries else []
+    nbad = 0
+    for (inp, got), want in zip(qmeta, res):
+        if want == "narrow" and NARROW_FIXED:
+            want = "narrowfx"
+        ctx.case("typedef/dispatch-text/%s" % inp["at"], inp, sig=(mn, inp["helper"], inp["width"], inp["signed"], inp["at"]))
+        if got != want and nbad < 6:
+            ctx.corr_break("Binop dispatch (generated C vs model)", inp, got, want)
+            nbad += 1
+    ctx.extra.setdefault("typedef_binop_instances", {})[mn] = len(seen)
+
+
+def run_td(ctx, model, plan, cfiles, variants, quick, spur):
+    for vname, wd, builtin in variants:
+        for mn, funcs, fold in plan:
+            calls, meta = [["%s.td_sizes" % mn, []]], []
+            for f in funcs:
+                td = TD_BY_NAME[f["td"]]
+                vals = td_values(td, ctx.rng, 6 if quick else 30)
+                cases = td_cases(f, vals, td[2], td[3], quick, ctx.rng)
+                calls.append(["%s.%s" % (mn, f["name"]), [f["k"], [(list(c) + [0, 0])[:3] for c in cases]]])
+                meta.append((f, cases))
+            res = cybuild.call_cases(wd, calls, setup="import %s" % mn, alarm=120)
+            sizes = {}
+            for item in (parse_out(res[0]) or []):
+                p = item.split()
+                sizes[p[0]] = (int(p[1]), int(p[2]))
+            if vname == "builtin":
+                td_check_code(ctx, model, mn, funcs, cfiles[mn], sizes)
+            mres = model.batch([td_model_query(f, c, builtin, fold) for (f, cases) in meta for c in cases])
+            mi = 0
+            for (f, cases), r in zip(meta, res[1:]):
+                nm, decl, w, sg, route, q = TD_BY_NAME[f["td"]]
+                outs = parse_out(r)
+                inp0 = {"variant": vname, "module": mn, "func": f["name"], "k": f["k"], "type": decl,
+                        "expr": f.get("expr") or f.get("stmt")}
+                if outs is None or len(outs) != len(cases):
+                    ctx.fail("crash_or_error", dict(inp0, cases=len(cases)), r, "one result per case")
+                    mi += len(cases)
+                    continue
+                nbad = nfail = 0
+                for c, got, m in zip(cases, outs, mres[mi:mi + len(cases)]):
+                    exp = td_expected(f, c)
+                    inp = dict(inp0, args=list(c))
+                    st = ("fits" if got != "O" else "spurious") if exp[0] == "val" else "overflows"
+                    key = f.get("op") or f["kind"]
+                    ctx.case("typedef/%s/%s/%s%d%s/%s/%s/%s" % (vname, "fold" if fold else "nofold", route, w,
+                                                               "s" if sg else "u", f["kind"], key, st),
+                             inp, sig=(vname, mn, f["name"], f["k"], c))
+                    if st == "spurious":
+                        k2 = key if (key == "lshift" or f["kind"] == "tree") else key + "@" + decl
+                        spur[(vname, "typedef:" + k2)] = spur.get((vname, "typedef:" + k2), 0) + 1
+                    mval = m[2:] if m.startswith("V ") else m
+                    if m not in ("UB", "SKIP") and mval != got and nbad < 5:
+                        ctx.corr_break("overflow:typedef:" + f["kind"], inp, got, m)
+                        nbad += 1
+                    ok = ((exp[0] == "val" and (got == str(exp[1]) or got == "O")) or (exp[0] == "raise" and got == "O"))
+                    if not ok and nfail < 5:
+                        ctx.fail(td_classify(f, c), inp, got,
+                                 ("%s or OverflowError" % exp[1]) if exp[0] == "val" else "OverflowError",
+                                 note="model says %s" % m)
+                        nfail += 1
+                mi += len(cases)
+
+
+# ---------------------------------------------------------------------------------------------
+# contexts of a checked operation other than "operand of another checked operation":
+#  - inside a nogil section / nogil function (the raise needs the GIL),
+#  - under a node that closes the fold scope of ConsolidateOverflowCheck (conditional expression,
+#    widening cast, unary minus, comparison, abs()): the inner check must still be tested
+# set to "1" once the corresponding proposed_fixes/C04-*.diff is applied to the tree
+NOGIL_FIXED = os.environ.get("C04_NOGIL_FIXED", "0") == "1"
+ABS_FIXED = os.environ.get("C04_ABS_FIXED", "0") == "1"
+NOGIL_CLASS = "overflow_raised_in_nogil_context_crashes"
+ABS_CLASS = "abs_of_temporary_argument_invalid_c"
+I32, I64, U64 = (32, True), (64, True), (64, False)
+V = lambda i: ("var", i)
+# (name, C type, (w, s), shape, in_nogil, source template)
+CX_FUNCS = [
+    ("cx_ngblock_add_int", "int", I32, ("bin", "add", V(0), V(1), I32), True, "NGBLOCK +"),
+    ("cx_ngblock_mul_int", "int", I32, ("bin", "mul", V(0), V(1), I32), True, "NGBLOCK *"),
+    ("cx_ngblock_add_ulong", "unsigned long", U64, ("bin", "add", V(0), V(1), U64), True, "NGBLOCK +"),
+    ("cx_ngblock_lshift_long", "long", I64, ("bin", "lshift", V(0), V(1), I64), True, "NGBLOCK <<"),
+    ("cx_ngfunc_int", "int", I32, ("bin", "add", V(0), V(1), I32), True, "NGFUNC"),
+    ("cx_gilfunc_int", "int", I32, ("bin", "add", V(0), V(1), I32), False, "GILFUNC"),
+    ("cx_cond_int", "int", I32, ("bin", "add", ("cond", V(2), ("bin", "mul", V(0), V(1), I32), ("bin", "add", V(0), V(1), I32)), V(2), I32),
+     False, "(a * b if c else a + b) + c"),
+    ("cx_cast_int", "int", I32, ("bin", "add", ("bin", "mul", V(0), V(1), I32), V(2), I64), False, "<long>(a * b) + c"),
+    ("cx_negin_int", "int", I32, ("bin", "add", ("neg", ("bin", "mul", V(0), V(1), I32), I32), V(2), I32), False, "-(a * b) + c"),
+    ("cx_cmp_int", "int", I32, ("bin", "add", ("cmp", ("bin", "mul", V(0), V(1), I32), V(2)), V(0), I32), False, "(a * b < c) + a"),
+    ("cx_cond_long", "long", I64, ("bin", "sub", ("cond", V(2), ("bin", "mul", V(0), V(1), I64), ("bin", "lshift", V(0), V(1), I64)), V(2), I64),
+     False, "(a * b if c else a << b) - c"),
+]
+AB_FUNCS = [
+    ("ab_mul_int", "int", I32, ("bin", "add", ("abs", ("bin", "mul", V(0), V(1), I32), 32), V(2), I32), False, "abs(a * b) + c"),
+    ("ab_mul_long", "long", I64, ("bin", "add", ("abs", ("bin", "sub", V(0), V(1), I64), 64), V(2), I64), False, "abs(a - b) + c"),
+    ("ab_call_int", "int", I32, ("abs", ("bin", "add", V(0), V(1), I32), 32), False, "abs(ng_add_int(a, b))"),
+]
+CX_HEAD = """# cython: language_level=3, overflowcheck=True, overflowcheck.fold=True
+cdef int ng_add_int(int a, int b) except? -1 nogil:
+    return a + b
+"""
+
+
+def cx_source(funcs):
+    L = [CX_HEAD]
+    for name, ct, ws, shape, ng, tmpl in funcs:
+        if tmpl.startswith("NGBLOCK"):
+            L += ["def %s(%s a, %s b, %s c):" % (name, ct, ct, ct), "    cdef %s r" % ct, "    with nogil:",
+                  "        r = a %s b" % tmpl.split()[1], "    return r", ""]
+        elif tmpl == "NGFUNC":
+            L += ["def %s(int a, int b, int c):" % name, "    cdef int r", "    with nogil:",
+                  "        r = ng_add_int(a, b)", "    return r", ""]
+        elif tmpl == "GILFUNC":
+            L += ["def %s(int a, int b, int c):" % name, "    return ng_add_int(a, b)", ""]
+        else:
+            L += ["def %s(%s a, %s b, %s c):" % (name, ct, ct, ct), "    return %s" % tmpl, ""]
+    return "\n".join(L)
+
+
+def cx_oracle(node, args):
+    """exact value, or None if some checked sub-operation does not fit its C type (must raise)"""
+    k = node[0]
+    if k == "var":
+        return args[node[1]]
+    if k == "bin":
+        x, y = cx_oracle(node[2], args), cx_oracle(node[3], args)
+        if x is None or y is None:
+            return None
+        lo, hi = rng_of(*node[4])
+        if node[1] == "lshift":
+            if y < 0 or (y > 200 and x != 0):
+                return None
+            v = x << min(y, 200)
+        else:
+            v = x + y if node[1] == "add" else x - y if node[1] == "sub" else x * y
+        return v if lo <= v <= hi else None
+    if k == "neg":
+        x = cx_oracle(node[1], args)
+        lo, hi = rng_of(*node[2])
+        return None if x is None or not lo <= -x <= hi else -x
+    if k == "abs":
+        x = cx_oracle(node[1], args)
+        return None if x is None or abs(x) > rng_of(node[2], True)[1] else abs(x)
+    if k == "cond":
+        return cx_oracle(node[2] if args[node[1][1]] else node[3], args)
+    if k == "cmp":
+        x, y = cx_oracle(node[1], args), cx_oracle(node[2], args)
+        return None if x is None or y is None else int(x < y)
+    raise ValueError(k)
+
+
+def cx_model(model, node, cases, ng):
+    """the same tree evaluated by the extracted model, one batch per arithmetic node.
+    values: int | 'O' | 'UB'"""
+    k = node[0]
+    def lift(vals_list, mk):
+        idx = [i for i in range(len(cases)) if all(isinstance(v[i], int) for v in vals_list)]
+        res = model.batch([mk(*[v[i] for v in vals_list]) for i in idx])
+        out = []
+        for i in range(len(cases)):
+            bad = [v[i] for v in vals_list if not isinstance(v[i], int)]
+            out.append(bad[0] if bad else None)
+        for i, r in zip(idx, res):
+            out[i] = int(r[2:]) if r.startswith("V ") else r
+        return out
+    if k == "var":
+        return [c[node[1]] for c in cases]
+    if k == "bin":
+        w, s = node[4]
+        conv = (lambda x: x) if s else (lambda x: x % 2 ** w)
+        return lift([cx_model(model, node[2], cases, ng), cx_model(model, node[3], cases, ng)],
+                    lambda x, y: "ngop %d %d 1 %s %d %d 64 64 %d %d" % (1 if NOGIL_FIXED else 0, 1 if ng else 0,
+                                                                      node[1], w, 1 if s else 0, conv(x), conv(y)))
+    if k == "neg":
+        return lift([cx_model(model, node[1], cases, ng)],
+                    lambda x: "neg %d %d %d %d" % (1 if NEG_CHECKED else 0, node[2][0], 1 if node[2][1] else 0, x))
+    if k == "abs":
+        return lift([cx_model(model, node[1], cases, ng)], lambda x: "abs %d %d" % (node[2], x))
+    if k == "cond":
+        a, b = cx_model(model, node[2], cases, ng), cx_model(model, node[3], cases, ng)
+        return [a[i] if c[node[1][1]] else b[i] for i, c in enumerate(cases)]
+    if k == "cmp":
+        a, b = cx_model(model, node[1], cases, ng), cx_model(model, node[2], cases, ng)
+        return [(int(x < y) if isinstance(x, int) and isinstance(y, int) else (x if not isinstance(x, int) else y))
+                for x, y in zip(a, b)]
+    raise ValueError(k)
+
+
+def cx_cases(ws, rng, quick, ng):
+    lo, hi = rng_of(*ws)
+    base = [(hi, 1, 1), (hi, 2, 0), (1, 2, 0), (hi - 1, 1, 1), (0, 0, 0), (3, 5, hi), (hi // 2 + 1, 2, 1),
+            (hi // 2, 2, 1), (hi // 2, 2, 2), (lo, 1, 0), (5, 62, 1), (1, 64, 0), (hi, hi, 1)]
+    if ws[1]:
+        base += [(lo, 1, 1), (lo, -1, 1), (lo, -1, 0), (-3, 5, lo), (lo + 1, -1, 1), (hi, -1, 1), (-1, 1, 1), (1, -1, 0)]
+    if ng:                       # every overflowing call of the unrepaired code costs a worker process
+        return [base[0], base[2], base[3]] if quick else base[:5]
+    vals = lattice(ws[0], ws[1], rng, 4)
+    small = [v for v in vals if abs(v) <= 70]
+    for _ in range(25 if quick else 400):
+        base.append((rng.choice(vals), rng.choice(vals if rng.random() < 0.5 else small), rng.choice(small + [lo, hi])))
+    return [c for c in base if all(lo <= v <= hi for v in c)]
+
+
+def run_cx(ctx, model, quick, built):
+    """built: {module: None | error text}"""
+    for mn, funcs, klass_build in (("c04_cx", CX_FUNCS, None), ("c04_abs", AB_FUNCS, ABS_CLASS)):
+        err = built.get(mn)
+        if err is not None:
+            if klass_build:
+                ctx.fail(klass_build, {"module": mn, "source": cx_source(funcs)}, err[-400:], "the module compiles")
+                ctx.case("context/%s/does-not-build" % mn, mn, sig=(mn, "build"))
+            else:
+                ctx.corr_break("build " + mn, mn, err[-1500:], "module builds")
+            continue
+        calls, meta = [], []
+        for f in funcs:
+            name, ct, ws, shape, ng, tmpl = f
+            if quick and name in ("cx_ngblock_mul_int", "cx_ngblock_add_ulong"):
+                continue
+            for c in cx_cases(ws, ctx.rng, quick, tmpl.startswith("NG")):
+                calls.append(["%s.%s" % (mn, name), list(c)])
+                meta.append((f, c))
+        res = cybuild.call_cases(ctx.workdir, calls, setup="import %s" % mn, alarm=20, max_crashes=60)
+        mvals = {}
+        for f in funcs:
+            cs = [c for (g, c) in meta if g is f]
+            if cs:
+                mvals[f[0]] = dict(zip(cs, cx_model(model, f[3], cs, f[4])))
+        nbad = 0
+        for (f, c), r in zip(meta, res):
+            name, ct, ws, shape, ng, tmpl = f
+            got = r["r"] if "r" in r else {"OverflowError": "O", "CRASH": "CRASH"}.get(r.get("e"), "E:%s" % r.get("e"))
+            exp = cx_oracle(shape, c)
+            m = mvals[name][c]
+            inp = {"module": mn, "func": name, "expr": tmpl, "type": ct, "args": list(c)}
+            ctx.case("context/%s/%s/%s" % ("nogil" if ng else "gil", name, "overflows" if exp is None else "fits"),
+                     inp, sig=(mn, name, c))
+            if m != "UB" and str(m) != got and nbad < 5:
+                ctx.corr_break("overflow:context", inp, got, m)
+                nbad += 1
+            ok = (got == "O") if exp is None else (got == str(exp) or got == "O")
+            if not ok:
+                ctx.fail(NOGIL_CLASS if (ng and got == "CRASH" and exp is None) else "wrong_result_context", inp, got,
+                         "OverflowError" if exp is None else "%d or OverflowError" % exp, note="model says %s" % m)
+
+
 def build_all(ctx, mods, portable):
     """mods: list of (name, source). Returns dict name -> dict(workdir, c_file) or None on failure"""
     out = {}
@@ -412,7 +1059,23 @@ def run(ctx):
     quick = ctx.tier == "quick"
     trees = (FIXED_TREES[:4] if quick else FIXED_TREES) + random_trees(ctx.rng, 2 if quick else 16)
     plan = module_plan(trees, quick)
-    cfiles = build_all(ctx, [(mn, gen_source(funcs, fold, sw)) for mn, funcs, fold, sw in plan], portable=not quick)
+    tdplan = td_plan(quick)
+    only_td = os.environ.get("C04_ONLY_TD") == "1"      # development hook: typedef part alone
+    if only_td:
+        plan = []
+    T0 = time.time(); TM = {}
+    import concurrent.futures as cf
+    def small(mn, funcs):
+        try:
+            cybuild.build(mn, cx_source(funcs), ctx.workdir, cflags=["-O1"])
+            return None
+        except cybuild.BuildError as e:
+            return str(e)
+    pool = cf.ThreadPoolExecutor(max_workers=2)
+    fut = {"c04_cx": pool.submit(small, "c04_cx", CX_FUNCS), "c04_abs": pool.submit(small, "c04_abs", AB_FUNCS)}
+    cfiles = build_all(ctx, [(mn, gen_source(funcs, fold, sw)) for mn, funcs, fold, sw in plan] +
+                       [(mn, td_source(funcs, fold)) for mn, funcs, fold in tdplan], portable=not quick)
+    TM["build"] = time.time() - T0
     if cfiles is None:
         return
     model = ctx.model("overflow")
@@ -496,8 +1159,16 @@ def run(ctx):
                                   "raise": "OverflowError", "zero": "ZeroDivisionError"}[exp[0]],
                                  note="model says %s" % m)
                 mi += len(cases)
+    TM["named"] = time.time() - T0 - TM["build"]
+    t1 = time.time()
+    run_cx(ctx, model, quick, {k: v.result() for k, v in fut.items()})
+    TM["contexts"] = time.time() - t1
+    t1 = time.time()
+    run_td(ctx, model, tdplan, cfiles, variants, quick, spur)
+    TM["typedef"] = time.time() - t1
+    ctx.extra["phase_wall_s"] = {k: round(v, 1) for k, v in TM.items()}
     # exhaustive 8-bit sweeps (fold module; builtin and, in thorough, portable build)
-    for vname, wd, builtin in variants:
+    for vname, wd, builtin in ([] if only_td else variants):
         sw = [["%s.sweep_%s_%s" % (mn, op, nm), []] for mn, nm in (("c04_f1", "schar"), ("c04_f3", "uchar"))
               for op in ("add", "sub", "mul", "lshift", "neg")]
         sres = cybuild.call_cases(wd, sw, setup="import c04_f1, c04_f3", alarm=300)
@@ -529,9 +1200,14 @@ def run(ctx):
     ctx.extra["spurious_flags"] = {"%s/%s" % k: v for k, v in sorted(spur.items())}
     ctx.extra["spurious_note"] = ("OverflowError although the exact result fits: only '<<' (negative left operand, or "
                                   "zero shifted by >= width), as characterised by C04_lshift_spurious_exactly")
-    bad = [k for k in spur if not (k[1].startswith("lshift") or k[1] in ("tree", "negconv"))]
+    # typedef'd types: '<<' as above (on an unsigned type narrower than int LeftShift always sets the bit,
+    # lshift_td); nothing else may be spurious
+    bad = [k for k in spur if not (k[1].startswith("lshift") or k[1] in ("tree", "negconv", "typedef:lshift", "typedef:tree"))]
     if bad:
         ctx.corr_break("spurious flags outside lshift", bad, "spurious", "none (theorems say add/sub/mul are exact)")
+    if os.environ.get("C04_DEBUG"):      # development: the framework prints corr breaks only when no failure fired
+        with open(os.environ["C04_DEBUG"], "w") as fh:
+            json.dump({"fails": ctx.prop_failures, "breaks": ctx.corr_breaks}, fh, indent=1, default=str)
 
 
 def replay(ctx, obj):
@@ -540,6 +1216,14 @@ def replay(ctx, obj):
     trees = (FIXED_TREES[:4] if quick else FIXED_TREES) + random_trees(ctx.rng, 2 if quick else 16)
     plan = module_plan(trees, quick)
     mn = inp["func"].split(".")[0] if "." in inp["func"] else inp["module"]
+    if mn.startswith("c04_td"):
+        for m, funcs, fold in td_plan(quick):
+            if m == mn:
+                cybuild.build(m, td_source(funcs, fold), ctx.workdir)
+        r = cybuild.call_cases(ctx.workdir, [["%s.%s" % (mn, inp["func"]), [inp["k"], [(inp["args"] + [0, 0])[:3]]]]],
+                               setup="import %s" % mn)
+        print("replayed (builtin branch):", json.dumps(inp), "->", str(r[0])[:300], "expected", obj.get("expected"))
+        return
     for m, funcs, fold, sw in plan:
         if m == mn:
             cybuild.build(m, gen_source(funcs, fold, sw), ctx.workdir)
